@@ -36,6 +36,11 @@ def gen_cases(tier, seed, salt):
             if sub.random() < 0.5:  # anisotropy up to 10
                 r = float(np.exp(sub.uniform(0, math.log(10))))
                 ncell[int(sub.integers(2))] = max(10, int(ncell[0] / r))
+        if three and k - n2 < (1 if tier == "quick" else 6):
+            # size as an input class: a 3-D grid with more than 2**24 cells (the documented default of 3-D use is larger still)
+            mode = "explicit"
+            ncell = [int(v) for v in sub.permutation([257, 259 + int(sub.integers(0, 30)), 263 + int(sub.integers(0, 40))])]
+            alpha = float(10 ** sub.uniform(-3.5, -1.0))
         cases.append(
             {
                 "spec": spec,
